@@ -18,7 +18,7 @@ for w in what:
     if '@' in w:
         w, cls = w.split('@')
     c = SPECS.contracts[w]
-    for k in ([cls] if cls else (c.for_cls or [w.split('.')[0]])):
+    for k in ([cls] if cls else (c.for_cls or [w.split('.')[0]])[:1]):
         res = verify.run_task(table, SPECS, c, k)
         print('==', w, '[', k, ']', f"{res.get('seconds', 0):.2f}s", res['meta'])
         if res['error']:
